@@ -134,6 +134,42 @@ def io_trees(r, seed, tier, model_ok):
             "implementation-only oracle: both sides of each monad law give equal (result, stdout, unread stdin)", lawbad)
 
 # ------------------------------------------------------------------ exhaustive small core programs (C02)
+def io_retry(r, seed, tier, model_ok):
+    """an action VALUE that fails when executed - its continuation hands back one and the same failing delayed expression every time - bound to a
+    parameter and executed again by the reject handler of the bind that ran it first, two or three levels deep: every execution repeats the
+    action's effects, every failure (the first and the replayed ones) goes to the handler of the bind that ran the action, and the last handler's
+    action gives the result"""
+    R = random.Random(seed * 7919 + 0xC07 + 5); E = G.enc; cases = []; want = []
+    FAILS = ["(ㄴ ㄱ ㄴㄴㅎㄷ ㅁㅈㅎㄴ ㅈㄹㅎㄴ)", "(ㄱ ㅈㄹㅎㄴ)", "(ㄱ ㄷㅂㅎㄴ ㄷㅈㅎㄴ)", "(ㄴ (ㄱ ㅁㅈㅎㄴ) ㄷㅎㄷ ㄱㅅㅎㄴ)", "(ㄹ (ㄴ ㄷ ㅅㅈㅎㄷ) ㅎㄴ)"]
+    FIRST = [("(ㄱ ㄱㅅㅎㄴ)", "", 0), ("(ㄴ ㅁㅈㅎㄴ ㅈㄹㅎㄴ)", "1\n", 0), ("(ㄹㅎㄱ)", "", 1)]                # (action, what one execution writes, lines one execution reads)
+    CONT = ["(ㄱㅇㄴ ㅎ)", "(ㄱ (ㄱㅇㄴ ㅁㄹㅎㄴ) ㅎㄴ ㅎ)", "(ㄱㅇㄴ (ㄱㅇㄱ ㅎ) ㅎㄴ ㅎ)", "((ㅈㅈㅎㄱ) ((ㄱㅇㄴ) ㄱ ㅁㄹㅎㄷ) ㅎㄷ ㄱ ㄱㅇㄱ ㅎㄴ ㅎ)" if False else "(ㄱㅇㄴ ㄱ (ㅈㅈㅎㄱ) ㅎㄷ ㅎ)"]   # each hands back the SAME delayed expression x
+    # continuations that are NOT closures hand back the very element they hold (a closure call builds a new delayed expression each time): a pipe
+    # of a one-element list / of a dictionary {0: x} / of a list inside a list - applied to the 0 that the first action yields
+    FIRST0 = [("(ㄱ ㄱㅅㅎㄴ)", "", 0), ("((ㄴ ㅁㅈㅎㄴ ㅈㄹㅎㄴ) ((ㄱ ㄱㅅㅎㄴ) ㅎ) ㄱㄹㅎㄷ)", "1\n", 0), ("((ㄹㅎㄱ) ((ㄱ ㄱㅅㅎㄴ) ㅎ) ㄱㄹㅎㄷ)", "", 1)]
+    CONT0 = ["((ㄱㅇㄱ ㅁㄹㅎㄴ) ㄴㄱㅎㄴ)", "((ㄱ ㄱㅇㄱ ㅅㅈㅎㄷ) ㄴㄱㅎㄴ)", "((ㄱㅇㄱ ㄴ ㅁㄹㅎㄷ) (ㄱㅇㄱ ㅎ) ㄴㄱㅎㄷ)"]
+    for _ in range(N(tier, 300, 4000)):
+        x = R.choice(FAILS); levels = R.choice([2, 2, 3]); v = R.randrange(2, 9)
+        if R.random() < .5: (act, outp, rd), cont = R.choice(FIRST), R.choice(CONT)
+        else: (act, outp, rd), cont = R.choice(FIRST0), R.choice(CONT0)
+        inner = f"({act} {cont} ㄱㄹㅎㄷ)"
+        # bind3(a, return, \e. bind3(a, return, \e. ... return v)) : the action is a = argument 0 of the function `levels` handlers further out
+        def chain(k):      # k handlers still to write; inside handler number j (1-based) the action is argument 0 of the function j levels out
+            if k == 0: return f"({E(v)} ㄱㅅㅎㄴ)"
+            depth = levels - k      # how many handler functions enclose this bind
+            return f"(ㄱㅇ{E(depth)}) ㄱㅅ ({chain(k - 1)} ㅎ) ㄱㄹㅎㄹ"
+        prog = f"{x} ({inner} ({chain(levels)} ㅎ) ㅎㄴ ㅎ) ㅎㄴ"
+        lines = ["a", "bc", "d", "e"][:R.randrange(0, 5)]
+        cases.append(dict(text=prog, stdin=lines)); want.append((f"V {v}", outp * levels, max(0, len(lines) - rd * levels)))
+    a = impl_run(cases)
+    def obs(o): f = o.split("\t"); return (vlib.decode_v(f[0]).split(" @")[0], "".join(chr(int(c)) for c in f[1][4:].split(",") if c), int(f[2].split()[1]))
+    bad = [dict(program=c["text"], stdin=c["stdin"], impl=str(obs(o))[:200], model=f"{w} (result of the last handler, the action's output once per execution, one line read per execution)", which=["retry"])
+           for c, o, w in zip(cases, a, want) if obs(o) != w]
+    r.slice("io_retry_oracle", len(cases), len({c["text"] for c in cases}), [cases[0]["text"]], dict(programs=len(cases)),
+            "a failing action value re-executed by the reject handlers that caught its failure (2-3 levels): result, output and input consumed computed from the shape", bad[:40])
+    if model_ok:
+        b = model_run(cases); dist, bad2 = compare(cases, a, b)
+        r.slice("io_retry_vs_model", len(cases), len({c["text"] for c in cases}), [cases[1]["text"]], dict(outcomes=dict(dist)), "the same programs: result, output, input left and event trace vs the model", bad2)
+
 def small_core(r, seed, tier, model_ok):
     """ALL closed core-calculus programs up to a node budget over the literal alphabet {-1,0,1,2}: literals, fundef, funref, argref, call"""
     budget = N(tier, 6, 7); lits = [-1, 0, 1, 2]
